@@ -293,7 +293,14 @@ def _margin_props(res, V, part):
                 sel = V.sel(first, 0) if axis == 0 else V.sel(0, first)
                 den = o.total(_fix(sel, V, axis), (V.R, V.C), V.weighted)
                 exp.append(num / den if den else float("nan"))
-            ok, det = cmp.same(g, np.array(exp))
+            exp = np.array(exp)
+            # a difference in a valid-count response has a NaN count (C04 owns that rule)
+            judged = np.array([not (V.valid_count_mode and V.is_diff(e)) for e in elems],
+                              dtype=bool)
+            if g.shape == exp.shape:
+                ok, det = cmp.same(np.where(judged, g, 0.0), np.where(judged, exp, 0.0))
+            else:
+                ok, det = cmp.same(g, exp)
             res.check("margin_proportion", ok, "slice/%s" % attr, det)
         else:
             # 2-D form: margin over table base, cell by cell, on base cells
